@@ -172,16 +172,20 @@ def base_place(b, op, depth=0):
     return (pl[0], tuple(pl[1]))
 
 
-def chain_locals(b, op):
-    """All locals along the single-definition copy/ref chain of an operand."""
+def chain_locals(b, op, through=("deref", "deref_mut", "as_str", "as_ref", "borrow", "as_slice", "clone", "to_string", "to_owned", "as_bytes", "as_mut", "borrow_mut", "as_mut_slice", "into")):
+    """All locals along the single-definition copy/ref chain of an operand (identity calls are
+    followed through their receiver)."""
     out = set()
     if op[0] == "k":
         return out
     pl = op[1]
-    for _ in range(12):
+    for _ in range(16):
         l = pl[0]
         out.add(l)
         ds = b.defs().get(l, [])
+        if len(ds) == 1 and ds[0][0] == "call" and ds[0][2].path.rsplit("::", 1)[-1] in through and ds[0][2].args and ds[0][2].args[0][0] != "k":
+            pl = ds[0][2].args[0][1]
+            continue
         if len(ds) != 1 or ds[0][0] != "stmt":
             break
         rv = ds[0][4]
@@ -250,3 +254,28 @@ def predicate_table(F, b, call, elem_values, base_value, argidx=1):
         except Exception as ex:
             return None, "cannot evaluate predicate %s: %s" % (show(pred), ex), None
     return out, show(pred), parent_roots
+
+
+def chain_fields(b, op, through=("deref", "deref_mut", "as_ref", "borrow", "as_mut", "borrow_mut", "clone", "unwrap", "expect", "lock", "read", "write")):
+    """Adt.field names met along the copy/ref/identity-call chain of an operand."""
+    out = []
+    if op[0] == "k":
+        return out
+    pl = op[1]
+    for _ in range(20):
+        out += [p[2:] for p in pl[1] if p.startswith("f:")]
+        l = pl[0]
+        ds = b.defs().get(l, [])
+        if len(ds) == 1 and ds[0][0] == "call" and ds[0][2].path.rsplit("::", 1)[-1] in through and ds[0][2].args and ds[0][2].args[0][0] != "k":
+            pl = ds[0][2].args[0][1]
+            continue
+        if len(ds) != 1 or ds[0][0] != "stmt":
+            break
+        rv = ds[0][4]
+        if rv[0] == "use" and rv[1][0] != "k":
+            pl = rv[1][1]
+        elif rv[0] == "ref":
+            pl = rv[2]
+        else:
+            break
+    return out
